@@ -72,7 +72,8 @@ def client_half(ctx, binary):
     ctx.mc("KeepaliveMC", ctx.pick("KeepaliveMCq.cfg", "KeepaliveMC.cfg"), workers=8)
     ctx.neg("KeepaliveMC", "KeepaliveNeg.cfg", expect="I_NoKillInWindow", workers=4)
     # the literal close bound fails in the model exactly in the known input class A (documented finding)
-    ctx.neg("KeepaliveMC", "KeepaliveLit.cfg", expect="I_CloseBoundLit", workers=4)
+    if not ctx.quick():
+        ctx.neg("KeepaliveMC", "KeepaliveLit.cfg", expect="I_CloseBoundLit", workers=4)
     g = ctx.dump_graph("KeepaliveMC", ctx.pick("KeepaliveGen.cfg", "KeepaliveGen2.cfg"), workers=8)
     raw = ctx.edge_cover(g, c_step_of, mode="paths")
     seen, behs = set(), []
@@ -85,10 +86,9 @@ def client_half(ctx, binary):
             seen.add(key)
             behs.append(nb)
     ctx.log("client: %d distinct timelines from %d graph paths" % (len(behs), len(raw)))
-    lim = ctx.pick(1000, 20000)
+    lim = ctx.pick(800, 20000)
     if len(behs) > lim:
         ctx.rng.shuffle(behs)
-        # always keep some timelines of the known-deviation class
         behs = behs[:lim]
     bpath = os.path.join(ctx.run, "beh-client.ndjson")
     tpath = os.path.join(ctx.run, "trace-client.ndjson")
@@ -132,7 +132,7 @@ def server_half(ctx, binary):
     ctx.mc("KeepaliveSrvMC", "KeepaliveSrvMC.cfg", workers=4)
     ctx.neg("KeepaliveSrvMC", "KeepaliveSrvNeg.cfg", expect="I_NoFalseCalm", workers=2)
     g = ctx.dump_graph("KeepaliveSrvMC", ctx.pick("KeepaliveSrvGen.cfg", "KeepaliveSrvMC.cfg"), workers=4)
-    raw = ctx.edge_cover(g, s_step_of, limit=ctx.pick(1000, None))
+    raw = ctx.edge_cover(g, s_step_of, limit=ctx.pick(800, None))
     behs = [{"minT": b[-1]["minT"], "permit": b[-1]["permit"], "steps": [{"a": s["a"], "g": s.get("g", 0)} for s in b]} for b in raw]
     bpath = os.path.join(ctx.run, "beh-server.ndjson")
     tpath = os.path.join(ctx.run, "trace-server.ndjson")
